@@ -505,6 +505,13 @@ impl ElementRaw {
         // Additionally, implementing this manually provides the opportunity to filter out
         // elements that are not compatible with the version of the current file.
         let newelem = other.0.read().deep_copy(version)?;
+        // an element of an identifiable type needs its SHORT-NAME; the copy of an element that does not have one
+        // (e.g. of an element that was removed, which clears its content) must not be inserted
+        if newelem.element_type().is_named_in_version(version) && !newelem.is_identifiable() {
+            return Err(AutosarDataError::ItemNameRequired {
+                element: newelem.element_name(),
+            });
+        }
         let path = self.path_unchecked()?;
 
         // set the parent of the newelem - the methods path(), containing_file(), etc become available on newelem
